@@ -158,6 +158,13 @@ def implStep (toks : List String) : Option String :=
   | ["sm2_verify_raw", pk, dg, sig] => do
     let pk ← bytesOfHex pk; let dg ← bytesOfHex dg; let sig ← bytesOfHex sig
     pure (showOut (bind2 (Impl.SM2.pk_new pk) fun p => (Impl.SM2.verify_raw dg p sig).map fun _ => ""))
+  -- the public key is a raw `Point` object (fields are public in the crate): limbs non-canonical (≥ p) are outside the model
+  | ["sm2_verify_raw_p", pt, dg, sig] => do
+    let p ← parsePt pt; let dg ← bytesOfHex dg; let sig ← bytesOfHex sig
+    pure (showOut ((Impl.SM2.verify_raw dg p sig).map fun _ => ""))
+  | ["sm2_verify_p", pt, id, msg, sig] => do
+    let p ← parsePt pt; let id ← parseId id; let msg ← bytesOfHex msg; let sig ← bytesOfHex sig
+    pure (showOut ((Impl.SM2.verify p id msg sig).map fun _ => ""))
   | ["sm2_enc", pk, msg, c, order, cands] => do
     let pk ← bytesOfHex pk; let msg ← bytesOfHex msg; let cands ← parseCands cands
     pure (showOut (bind2 (Impl.SM2.pk_new pk) fun p => (Impl.SM2.encrypt p msg (c == "1") (modelOf order) cands).map showRand))
@@ -443,6 +450,24 @@ def specStep (toks : List String) : Option String :=
       | some (x, y) =>
         if id.length * 8 > 65535 ∨ sig.length ≠ 64 then "ERR" else
         if Spec.SM2.verify (some (x, y)) (Spec.SM2.digestE id x y msg) (beNat (sig.take 32)) (beNat (sig.drop 32)) then "OK" else "ERR")
+  -- raw point object as public key: through the public `verify` a point that is not a (finite) curve point must be refused -> ERR;
+  -- non-canonical limbs -> outside the statement
+  | ["sm2_verify_raw_p", pt, dg, sig] => do
+    let p ← parsePt pt; let dg ← bytesOfHex dg; let sig ← bytesOfHex sig
+    pure (if p.x ≥ Spec.SM2.p ∨ p.y ≥ Spec.SM2.p ∨ p.z ≥ Spec.SM2.p then "ANY" else
+      match specOfJac p with
+      | some (some ptA) =>
+        if dg.length ≠ 32 ∨ sig.length ≠ 64 then "ERR" else
+        if Spec.SM2.verify (some ptA) (beNat dg) (beNat (sig.take 32)) (beNat (sig.drop 32)) then "OK" else "ERR"
+      | _ => "ANY")      -- the digest-level entry does not validate the key (the public `verify` does): outside the statement
+  | ["sm2_verify_p", pt, id, msg, sig] => do
+    let p ← parsePt pt; let id ← parseId id; let msg ← bytesOfHex msg; let sig ← bytesOfHex sig
+    pure (if p.x ≥ Spec.SM2.p ∨ p.y ≥ Spec.SM2.p ∨ p.z ≥ Spec.SM2.p then "ANY" else
+      match specOfJac p with
+      | some (some (x, y)) =>
+        if id.length * 8 > 65535 ∨ sig.length ≠ 64 then "ERR" else
+        if Spec.SM2.verify (some (x, y)) (Spec.SM2.digestE id x y msg) (beNat (sig.take 32)) (beNat (sig.drop 32)) then "OK" else "ERR"
+      | _ => "ERR")
   | ["sm2_verify_raw", pk, dg, sig] => do
     let pk ← bytesOfHex pk; let dg ← bytesOfHex dg; let sig ← bytesOfHex sig
     pure (match Spec.SM2.decodePoint pk with
